@@ -8,7 +8,7 @@ from oracle import refpatch, refjson
 from oracle.refpatch import encode
 
 PID = "C13"
-KEYS = [b"a", b"b", b"ab", b"a/b", b"m~n", b"~1", b"", b"0", b"1", b"-", b"foo", b"x y", b"c%d", b"~0~1", b"k\x01", b"e\xc3\xa9"]
+KEYS = [b"a", b"b", b"ab", b"a/b", b"m~n", b"~1", b"", b"0", b"1", b"-", b"foo", b"x y", b"c%d", b"~0~1", b"k\x01", b"e\xc3\xa9", b"a~2", b"t~", b"~", b"~~"]
 
 
 BASE_KEYS = list(KEYS)
@@ -31,8 +31,24 @@ def set_key_pool(rng):
     return False
 
 
+_SPELL = None
+
+
 def esc(k):
-    return k.replace(b"~", b"~0").replace(b"/", b"~1")
+    """pointer spelling of a member name.  A '~' that is not followed by '0' or '1' may also be written raw: RFC 6901 evaluation (and json-c) only
+    transforms the sequences ~1 and ~0, so "/a~2" and "/a~02" address the same member "a~2"; a third of such tildes are spelled raw."""
+    if _SPELL is None or b"~" not in k:
+        return k.replace(b"~", b"~0").replace(b"/", b"~1")
+    out = bytearray()
+    for i, c in enumerate(k):
+        if c == 0x7E:
+            nxt = k[i + 1:i + 2]
+            out += b"~" if (nxt not in (b"0", b"1") and _SPELL.random() < 0.35) else b"~0"
+        elif c == 0x2F:
+            out += b"~1"
+        else:
+            out.append(c)
+    return bytes(out)
 
 
 def gen_value(rng, depth=0, budget=None):
@@ -260,6 +276,8 @@ def first_diverging_op(exe, doc, patch):
 
 def shard_fn(shard, nshards, seed, tier, exe, nconf, nrob):
     rng = random.Random("%d/%d/c13" % (seed, shard))
+    global _SPELL
+    _SPELL = random.Random("%d/%d/c13spell" % (seed, shard))
     sh = core.Shard()
     cases, meta = [], {}
     n = 0
@@ -330,7 +348,7 @@ def shard_fn(shard, nshards, seed, tier, exe, nconf, nrob):
         else:
             patch = gen_value(rng)
         add_case(doc, patch, "robustness")
-    results, crashes = core.run_script(exe, cases, tag="c13")
+    results, crashes = core.run_script(exe, cases, tag="c13", env=core.ambient_env(sh, shard))
     cmdmap = dict(cases)
     for cr in crashes:
         kind, frame = cr.summary()
